@@ -124,7 +124,7 @@ def main(tier):
     valid = [m for m in docs if m["valid"]]
     for n, m in enumerate(valid[:(600 if thorough else 120)]):
         d = m["doc"]
-        forms = c08.forms(d, m["tx"][0], rnd)
+        forms = [f for f in c08.forms(d, m["tx"][0], rnd) if len(f) == 3]     # not the macro forms: a fault after a PASTE may belong to the macro
         flat, multi, tf = c08.twice_form(d)
         forms.append(("same_file_twice", multi, tf))
         for nm, main_blocks, files in forms:
